@@ -34,8 +34,8 @@ type kvFactory struct {
 	mu   sync.Mutex
 	// serialises batch commits so that the application log is in commit order
 	commitMu sync.Mutex
-	cur  *kvW
-	gen  int
+	cur      *kvW
+	gen      int
 	// log of applications, in commit order
 	log   []applied
 	phase string
